@@ -1076,3 +1076,11 @@ try:
             return super().__getitem__(k)
 except ImportError:      # pragma: no cover
     PosSeries = None
+
+
+def occurrences(labels, x):
+    return sum(1 for y in labels if y == x)
+
+
+def is_black(v):
+    return list(v) == [0, 0, 0]
